@@ -748,6 +748,39 @@ def run(ctx):
     return common.finish(ctx, MATCHERS)
 
 
+def _rhe(q):
+    """round half even of a Fraction -> int"""
+    import math
+    f = math.floor(q)
+    r = q - f
+    if r < Fraction(1, 2):
+        return f
+    if r > Fraction(1, 2):
+        return f + 1
+    return f if f % 2 == 0 else f + 1
+
+
+def ref_round2float(x, step):
+    """independent exact reference for utils.round2float; returns (value, distance of the rounded quantity to a tie)"""
+    x, step = Fraction(x), Fraction(step)
+    s = Fraction(_rhe(step * 10), 10)
+    if s >= Fraction(1, 100):
+        q = x / s
+        val = _rhe(q) * s
+    else:
+        q = x * 100
+        val = Fraction(_rhe(q), 100)
+    import math
+    return float(val), float(abs(q - math.floor(q) - Fraction(1, 2)))
+
+
+def expected_rule(span, loss):
+    lo, hi, step = span['delta_power_range_db'][:3]
+    x = (Fraction(loss) - Fraction(span['span_loss_ref'])) * Fraction(span['power_slope'])
+    v, tie = ref_round2float(x, step)
+    return min(float(hi), max(float(lo), v)), tie
+
+
 def oracle_static(ctx, c, built, o, p0, pref_ch, pref_total, desc, case):
     """budget + rule on the implementation's designed values, computed from the observed element losses"""
     from gnpy.core import elements as E
@@ -817,6 +850,38 @@ def oracle_static(ctx, c, built, o, p0, pref_ch, pref_total, desc, case):
                     ctx.violation('user_gain_reduced_without_saturation',
                                   f"{desc}: {n.uid} gain {s['gain']} -> {a['gain']} although the output "
                                   f"{pout} dBm would not exceed p_max {lib.p_max}", case, in_voa=in_voa_case)
+            # the documented rule, where the operator set no offset (and, in gain mode, no gain)
+            if s['delta_p'] is None and (pm or s['gain'] is None) and len(span['delta_power_range_db']) >= 3:
+                nxt = o['nodes'][idx + 1:]
+                k = 0
+                while k < len(nxt) and isinstance(nxt[k], (E.Fiber, E.Fused)):
+                    k += 1
+                run = nxt[:k]
+                if not nxt and isinstance(o['end'], E.Roadm):
+                    exp_dp, tie = 0.0, 1.0
+                else:
+                    if run and isinstance(run[0], E.Fiber) and fibs[run[0].uid]['dsl'] is not None:
+                        nloss = fibs[run[0].uid]['dsl']          # the cached design loss (checked against the real one above)
+                    else:
+                        nloss = sum(float(x.loss) for x in run)
+                    exp_dp, tie = expected_rule(span, nloss)
+                if tie < 1e-9:
+                    ctx.count('rule_not_judged_tie')
+                else:
+                    ctx.count('rule_checked')
+                    auto_part = a['out_voa'] if (s['out_voa'] is None and pm) else 0.0
+                    got = a['_delta_p'] - auto_part - (s['out_voa'] or 0.0)
+                    gain_before_voa = a['gain'] - auto_part
+                    if abs(got - exp_dp) > 1e-9:
+                        ext = span['target_extended_gain']
+                        saturating = got < exp_dp and (
+                            abs(pref_total + a['_delta_p'] - auto_part - float(lib.p_max)) <= 1e-9 or
+                            (not s['variety'] and abs(gain_before_voa - (float(lib.gain_flatmax) + ext)) <= 1e-9) or
+                            ((not pm) and s['variety'] and a['in_voa'] and
+                             abs(pref_total + a['_delta_p'] + a['in_voa'] - float(lib.p_max)) <= 1e-9))
+                        if not saturating:
+                            ctx.violation('dp_rule', f"{desc}: {n.uid} offset {got} (VOA parts removed), the rule gives {exp_dp} "
+                                          f"and the amplifier is not at a limit", case)
             p -= a['out_voa']
             span_excess = span_user_att = 0.0
 
